@@ -1,49 +1,6 @@
 (* Spec/SendKnown.v — decidable classifiers of the recorded defect classes of C07
-   (known_findings.txt).  Each says: the frame is ill-formed in exactly the
-   recorded way, i.e. it becomes well-formed once that one defect is undone. *)
-From PV Require Export Spec.SendRef.
+   (known_findings.txt).  The classes that needed a dedicated shape predicate (purge ARP probe, RS, RA,
+   NS option type) were repaired in /repo; the remaining classes are expressed in Extract/D07.v by the
+   well-formedness predicates themselves with the defective parameter (e.g. broadcast MAC) substituted. *)
+From PV Require Export Spec.SendRef Spec.SendRefUdp.
 Open Scope N_scope.
-
-(* finding arpreq-hlen-plen-in-ether-header (session.go:372): hlen/plen are written to b[4], b[5]
-   (Ethernet destination bytes 4 and 5) instead of arp[4], arp[5] (frame offsets 18, 19). *)
-Definition repair_arpreq (dst fr : bytes) : bytes :=
-  set_nth 4 (nth 4 dst 0) (set_nth 5 (nth 5 dst 0) (set_nth 18 6 (set_nth 19 4 fr))).
-Definition known_arpreq_hdr (hostmac dst : bytes) (op : N) (sha spa tha tpa fr : bytes) : bool :=
-  negb (wf_arp hostmac dst op sha spa tha tpa fr)
-  && (nth 4 fr 0 =? 6) && (nth 5 fr 0 =? 4)
-  && wf_arp hostmac dst op sha spa tha tpa (repair_arpreq dst fr).
-
-(* ---------------------------------------------------------------- *)
-From PV Require Export Spec.SendRefUdp.
-
-(* finding rs-without-icmp6-header (layer_icmp6_ndp.go:166/274, session.go:44): RouterSolicitation.marshal
-   returns the 4 reserved bytes + options without the ICMPv6 type/code/checksum header, and the all-routers
-   address constant is ff02::1 with MAC 33:33:00:00:00:02.  The frame therefore is an ICMPv6 message of type 0
-   code 0 (checksum valid, because the bytes it overwrites were zero) to ff02::1 whose body is the SLLA option. *)
-Definition known_rs_noheader (all_routers_ip : bytes) (hostmac hostlla fr : bytes) : bool :=
-  match ref_decode fr with
-  | Some (mkFrame d s et (L3Ip6 _ nh hop a b (L4Icmp typ code rest))) =>
-      (et =? 34525) && (nh =? 58) && (typ =? 0) && (code =? 0)
-      && beq s hostmac && beq a hostlla && beq b all_routers_ip
-      && beq d [51;51;0;0;0;2] && (hop =? 255)
-      && ns_opts_ok 1 hostmac (ndp_opts rest) && lenb rest 8
-      && icmp6_cks_ok fr
-  | _ => false
-  end.
-
-(* finding ra-without-icmp6-header (layer_icmp6_ndp.go:64/221): RouterAdvertisement.marshal returns the 12-byte
-   body + options without the ICMPv6 header: type byte = cur hop limit 64, code = flags 0, the checksum is
-   written over the router lifetime; reachable/retrans and the requested options follow. *)
-Definition known_ra_noheader (hostmac hostlla : bytes) (mtu : N) (prefixes : list (N * bytes))
-                             (rdnss : option (N * list bytes)) (dmac dip fr : bytes) : bool :=
-  match ref_decode fr with
-  | Some (mkFrame d s et (L3Ip6 _ nh hop a b (L4Icmp typ code rest))) =>
-      (et =? 34525) && (nh =? 58) && (typ =? 64) && (code =? 0)
-      && beq d dmac && beq s hostmac && beq a hostlla && beq b dip
-      && Nat.leb 8 (List.length rest) && (w32 rest 0 =? 0) && (w32 rest 4 =? 0)
-      && match ndp_opts (skipn 8 rest) with
-         | Some o => beq_opts o (ra_want_opts hostmac mtu prefixes rdnss)
-         | None => false
-         end
-  | _ => false
-  end.
